@@ -173,6 +173,15 @@ def check_c09(case, stats=None):
                         else:
                             bad("absent-key-removed", "%s of key %s which module %d does not hold returned %d" % (c.op, key, m, r.ret), r)
                 pending.append((m, r, c.op))
+            elif c.op == "srclen" and len(c.args) > 1 and 0 <= c.args[1] <= 7 and r.ret >= 0:
+                # count of one kind of source only
+                kname = ("sub", "fd", "tmr", "sgn", "path", "pid", "task", "thresh")[c.args[1]]
+                S_ = sets.get(m, {})
+                n_model = sum(1 for kk in S_ if kk[0] == kname)
+                if stats is not None:
+                    stats["per_kind_counts_judged"] = stats.get("per_kind_counts_judged", 0) + 1
+                if r.ret != n_model and srclen.get(m) == len(S_):      # (only when the total agrees: the model is in step)
+                    bad("count-mismatch", "m_mod_src_len(%s only) on module %d reports %d, the keyed-set model holds %d of that kind %s" % (kname, m, r.ret, n_model, sorted(str(kk[1]) for kk in S_ if kk[0] == kname)), r)
         elif r.k == "V" and not unstash:
             # one-shot sources are gone once they fired
             m = r.slot
